@@ -1091,7 +1091,7 @@ def gen_rt(rng):
 def generate(ctx):
     rng = ctx.rng
     cases, seen = [], set()
-    n_rt, n_b = ctx.n(700, 5000), ctx.n(180, 1200)
+    n_rt, n_b = ctx.n(700, 3000), ctx.n(180, 800)
     while len(cases) < n_rt:
         c = gen_rt(rng)
         k = _ck(c)
